@@ -103,40 +103,60 @@ def check_builder_call_zip(ctx, r):
     for st in f.node.body:
         if isinstance(st, ast.Assign) and isinstance(st.value, ast.Tuple) and isinstance(st.targets[0], ast.Name):
             tup[st.targets[0].id] = st.value.elts
+    # the loop over (phase letter, builder, data) triples: zip of three parallel literal tuples, or one literal tuple of triples
     zipcall = None
+    triples = None
     for n in ast.walk(f.node):
-        if isinstance(n, ast.For) and isinstance(n.iter, ast.Call) and src(n.iter.func) == 'zip':
-            zipcall = n
-    if zipcall is None:
-        raise AnalysisError('PhaseFunctorBuilder.__call__: zip loop not found')
-    cols = []
-    for a in zipcall.iter.args:
-        if isinstance(a, ast.Name) and a.id in tup:
-            cols.append(tup[a.id])
-        elif isinstance(a, ast.Tuple):
-            cols.append(a.elts)
+        if not (isinstance(n, ast.For) and isinstance(n.target, ast.Tuple) and len(n.target.elts) == 3):
+            continue
+        it = n.iter
+        if isinstance(it, ast.Call) and src(it.func) == 'zip' and len(it.args) == 3:
+            cols = []
+            for a in it.args:
+                if isinstance(a, ast.Name) and a.id in tup:
+                    cols.append(tup[a.id])
+                elif isinstance(a, ast.Tuple):
+                    cols.append(a.elts)
+                else:
+                    raise AnalysisError('PhaseFunctorBuilder.__call__: zip argument %s not a literal tuple' % src(a))
+            if len({len(c) for c in cols}) == 1:
+                triples = [tuple(c[i] for c in cols) for i in range(len(cols[0]))]
+                zipcall = n
         else:
-            raise AnalysisError('PhaseFunctorBuilder.__call__: zip argument %s not a literal tuple' % src(a))
-    n = len(cols[0])
-    for i in range(n):
+            elts = tup.get(it.id) if isinstance(it, ast.Name) else (it.elts if isinstance(it, (ast.Tuple, ast.List)) else None)
+            if elts and all(isinstance(e, ast.Tuple) and len(e.elts) == 3 for e in elts):
+                triples = [tuple(e.elts) for e in elts]
+                zipcall = n
+    if zipcall is None or not triples:
+        raise AnalysisError('PhaseFunctorBuilder.__call__: loop over (phase, builder, data) triples not found')
+    for i, tr in enumerate(triples):
         letters = set()
-        for c in cols:
-            e = c[i]
+        for e in tr:
             if isinstance(e, ast.Constant):
                 letters.add(e.value)
             elif isinstance(e, ast.Attribute):
                 letters.add(e.attr)
             elif isinstance(e, ast.Name):
-                letters.add(e.id[0])      # sdata -> s
+                letters.add(e.id[0])      # sdata -> s  (parameter names of __call__, bound positionally by the callers checked in D1)
         if len(letters) == 1:
-            r.ok('PhaseFunctorBuilder.__call__', 'zip column %d pairs phase/builder/data of phase %r' % (i, letters.pop()), f, zipcall)
+            r.ok('PhaseFunctorBuilder.__call__', 'triple %d pairs phase/builder/data of phase %r' % (i, letters.pop()), f, zipcall)
         else:
             r.fail('PhaseFunctorBuilder.__call__', 'zip-misaligned-%d' % i,
-                   'zip column %d mixes phases %s' % (i, sorted(map(str, letters))), f, zipcall)
-    # the loop body must bind builder.from_args(data) under key phase
-    tgt = [x.id for x in zipcall.target.elts] if isinstance(zipcall.target, ast.Tuple) else []
-    body = src(ast.Module(body=zipcall.body, type_ignores=[]))
-    if len(tgt) == 3 and ('%s.from_args(%s)' % (tgt[1], tgt[2])) in body and ('[%s]' % tgt[0]) in body:
+                   'triple %d mixes phases %s' % (i, sorted(map(str, letters))), f, zipcall)
+    # the loop body must bind builder.from_args(data) under key phase (directly or through a local)
+    tgt = [x.id for x in zipcall.target.elts]
+    made = set()
+    bound = False
+    for n in ast.walk(ast.Module(body=zipcall.body, type_ignores=[])):
+        if isinstance(n, ast.Assign):
+            v = n.value
+            is_make = isinstance(v, ast.Call) and src(v.func) == '%s.from_args' % tgt[1] and len(v.args) == 1 and src(v.args[0]) == tgt[2]
+            for t in n.targets:
+                if isinstance(t, ast.Name) and is_make:
+                    made.add(t.id)
+                if isinstance(t, ast.Subscript) and src(t.slice) == tgt[0] and (is_make or (isinstance(v, ast.Name) and v.id in made)):
+                    bound = True
+    if bound:
         r.ok('PhaseFunctorBuilder.__call__', 'slg[phase] = builder.from_args(data)', f, zipcall)
     else:
         r.fail('PhaseFunctorBuilder.__call__', 'loop-body', 'loop body does not bind builder.from_args(data) under the phase key', f, zipcall)
